@@ -34,7 +34,10 @@ type Step struct {
 	Name int    `json:"n,omitempty"`
 	R    int    `json:"r,omitempty"` // recipient
 }
-type History struct{ Steps []Step }
+type History struct {
+	Steps []Step
+	ABCI  bool `json:"abci,omitempty"` // execute through InitChain / FinalizeBlock(signed txs) / Commit instead of the direct driver
+}
 
 const nActors = 4
 
@@ -251,6 +254,9 @@ func gen(r *lib.Rand, tier, stream string, i int) History {
 		return actor()
 	}
 	spendAmount := func(held uint64) uint64 {
+		if r.Chance(1, 30) {
+			return 0 // ValidateBasic rejects a zero amount
+		}
 		switch r.Weighted(5, 6, 2, 3, 1, 1) {
 		case 0:
 			return held // exactly everything (0 if nothing held: invalid amount)
@@ -274,6 +280,9 @@ func gen(r *lib.Rand, tier, stream string, i int) History {
 		return 0
 	}
 	mintAmount := func(supply uint64) uint64 {
+		if r.Chance(1, 30) {
+			return 0 // ValidateBasic rejects a zero amount
+		}
 		room := math.MaxUint64 - supply
 		switch r.Weighted(8, 6, 1, 3, 2, 2, 2) {
 		case 0:
@@ -369,11 +378,26 @@ func gen(r *lib.Rand, tier, stream string, i int) History {
 			if r.Chance(1, 30) {
 				rc = -2
 			}
+			before, had := sh.owner[d]
 			push(Step{K: "handover", S: ownerish(d), D: d, R: rc})
+			if after := sh.owner[d]; had && after != before {
+				// the class changed hands: the former owner must be refused, the new one accepted,
+				// for a new MT (empty id) and for more of an existing one
+				for _, who := range []int{before, after} {
+					if r.Chance(2, 3) {
+						m := 0
+						if ms := sh.mts[d]; len(ms) > 0 && r.Chance(1, 2) {
+							m = ms[r.Intn(len(ms))]
+						}
+						push(Step{K: "mint", S: who, D: d, M: m, A: u(mintAmount(sh.sup[[2]int{d, m}])), R: -1})
+					}
+				}
+			}
 		case 7:
 			push(Step{K: "block"})
 		}
 	}
+	h.ABCI = stream == "abci"
 	return h
 }
 
@@ -537,13 +561,29 @@ func (w *world) observe(code int, newID int) string {
 
 func exec(h History) lib.Case {
 	var k mtkeeper.Keeper
-	e := lib.NewEnv(lib.EnvOpts{NActors: nActors, Consumers: []interface{}{&k}})
-	e.Blockers = []string{"mt"}
+	var e *lib.Env
+	deliver := func(msg sdk.Msg) lib.Outcome { return e.Deliver(msg) }
+	nextBlock := func() {
+		e.EndBlock()
+		e.BeginBlock(5 * time.Second)
+	}
+	if h.ABCI {
+		ae := lib.NewABCIEnv(nActors, []interface{}{&k})
+		defer ae.Close()
+		e = ae.Env
+		// one signed transaction per message, one block per transaction
+		deliver = func(msg sdk.Msg) lib.Outcome { return ae.DeliverBlock(5*time.Second, msg)[0] }
+		nextBlock = func() { ae.DeliverBlock(5 * time.Second) }
+	} else {
+		e = lib.NewEnv(lib.EnvOpts{NActors: nActors, Consumers: []interface{}{&k}})
+		e.Blockers = []string{"mt"}
+	}
 	w := &world{e: e, k: k, unkD: map[string]int{}, unkM: map[string]int{}}
 	c := lib.Case{Stats: map[string]int{}}
 	var terms []string
 	strangerTried := map[int]bool{} // class -> a non-owner attempted mint/edit/handover
 	ownerDid := map[int]bool{}      // class -> its owner succeeded with mint/edit/handover
+	formerOwner := map[[2]int]bool{} // (class, actor) -> the actor owned the class before a hand-over
 	for _, st := range h.Steps {
 		amt, _ := strconv.ParseUint(st.A, 10, 64)
 		var msg sdk.Msg
@@ -573,8 +613,7 @@ func exec(h History) lib.Case {
 			msg = &mttypes.MsgTransferDenom{Id: denomStr(st.D), Sender: addrStr(e, st.S), Recipient: addrStr(e, st.R)}
 			term = lib.App("TransferDenom", z(st.S), z(st.D), z(st.R))
 		default:
-			e.EndBlock()
-			e.BeginBlock(5 * time.Second)
+			nextBlock()
 			lib.Stat(c.Stats, "op:block")
 			c.Steps = append(c.Steps, "block")
 			terms = append(terms, lib.Pair("Block", w.observe(0, 0)))
@@ -604,8 +643,36 @@ func exec(h History) lib.Case {
 				knownM[m.GetID()] = true
 			}
 		}
-		out := e.Deliver(msg)
+		out := deliver(msg)
 		lib.Stat(c.Stats, "res:"+out.Kind)
+		if amt == 0 && (st.K == "mint" || st.K == "transfer" || st.K == "burn") {
+			lib.Stat(c.Stats, "amount:0:"+out.Kind)
+		}
+		if st.K == "mint" {
+			kind := "new-mt(empty id)"
+			switch {
+			case st.M > 0 && knownM[mtStr(st.M)]:
+				kind = "more-of-existing"
+			case st.M > 0:
+				kind = "unknown-or-foreign-id"
+			case st.M < 0:
+				kind = "bogus-id"
+			}
+			lib.Stat(c.Stats, "mint:"+kind+":"+out.Kind)
+			if ownerBefore >= 0 && st.S >= 0 {
+				who := "stranger"
+				if st.S == ownerBefore {
+					who = "owner"
+				} else if formerOwner[[2]int{st.D, st.S}] {
+					who = "former-owner"
+				}
+				lib.Stat(c.Stats, "mint:by-"+who+":"+out.Kind)
+			}
+		}
+		if st.K == "handover" && out.OK() && ownerBefore >= 0 && st.R != ownerBefore {
+			formerOwner[[2]int{st.D, ownerBefore}] = true
+			delete(formerOwner, [2]int{st.D, st.R})
+		}
 		newID := 0
 		if out.OK() {
 			switch st.K {
